@@ -23,6 +23,15 @@ Theorem C06_roundtrip : forall im inp,
 Proof. exact load_file_compile. Qed.
 Print Assumptions C06_roundtrip.
 
+(** ... and the hypotheses hold for everything the assembler produces: for EVERY source that
+    assembles, running the compiled object file starts from exactly the machine `run` builds from
+    the source (so the two runs are identical for every input and budget, by C03_run). *)
+Theorem C06_roundtrip_src : forall feat src im sym1 inp,
+  assemble feat [] src = (Ok im, sym1) ->
+  load_file (compile_bytes im) inp = from_raw (raw_of_image im) inp.
+Proof. exact load_file_compile_src. Qed.
+Print Assumptions C06_roundtrip_src.
+
 (** The loader accepts exactly the even-length files of at least one word whose image, placed at
     the address given by the first word and followed by the implicit HALT, fits below 2^16. *)
 Theorem C06_loader_iff : forall bytes inp,
